@@ -3,6 +3,7 @@ Monitor O12 on the real parser: with and without the memo table the tree, the en
 the `remaining input` diagnostic are equal (where the uncached parse is feasible), and the
 number of token reads of the cached parse is bounded by a linear function of the input length,
 also for deeply nested input."""
+import itertools
 import json
 from . import core, progs, texts
 
@@ -52,6 +53,14 @@ def check(ctx):
                 continue
             reqs.append({"kinds": s, "uncached": True})
         ctx.count("exhaustive_sequences", len(reqs))
+        # exhaustive expression-level sequences inside a declaration and inside a resource
+        n0 = len(reqs)
+        for pre, post in texts.CONTEXTS:
+            for s in texts.seqs_upto(texts.EXPR_LARGE, 3):
+                reqs.append({"kinds": pre + s + post, "uncached": True})
+            for s in itertools.product(texts.EXPR_LARGE if ctx.thorough else texts.EXPR_SMALL, repeat=4):
+                reqs.append({"kinds": pre + list(s) + post, "uncached": True})
+        ctx.count("exhaustive_in_context", len(reqs) - n0)
         # random longer sequences over all kinds
         for _ in range(3000 if ctx.thorough else 600):
             n = ctx.rng.randint(6, 60)
@@ -135,7 +144,8 @@ def check(ctx):
             ctx.sample({"input": (rq.get("text") or " ".join(rq.get("kinds", [])))[:160], "cached": c["counters"], "uncached": r["uncached"]["counters"]})
     ctx.cov["max_reads_per_token"] = round(worst, 2)
     ctx.cov["distinct_nontrivial"] = ctx.cov["distribution"].get("nontrivial", 0)
-    ctx.cov["rule"] = ("token-kind sequences over a reduced 12-kind alphabet exhaustively up to length 4 (quick: a third of length 4; thorough: length 5), random "
+    ctx.cov["rule"] = ("token-kind sequences over a reduced 12-kind alphabet exhaustively up to length 4 (quick: a third of length 4; thorough: length 5), all sequences "
+                       "of up to 3 kinds over a 27-kind expression alphabet and of 4 kinds over 14 (thorough: 27) kinds inside `let a = .. ;` and `res .. ;`, random "
                        "sequences over all kinds (6-60 tokens), generated programs and mutations as text, every bracket kind nested to depth 1-8 (also unmemoised "
                        "up to 6) and 25-200 (memoised only), closed and unclosed, 2200+ flat declarations followed by a nest; cached vs uncached compared where "
                        "requested; reads <= %d*n+%d everywhere. distinct_nontrivial = distinct inputs with at least one memo hit" % (READ_FACTOR, READ_FACTOR))
